@@ -82,4 +82,53 @@ theorem adoLoop_snd (pool : List (Spec τ)) (tock : τ) (stopAt : Option τ) (en
           · simp [he, hs, envIter, yieldToLoop]
           · simp [he, hs, ih, yieldToLoop, e, envIter]
 
+/-- a cancelled `ado` leaves exactly the trace (and tyme, cycle count, doers list, raised) of a `do()` run of the same
+program that was stopped by force after the same number of cycles (`fuel = j+1`): every theorem about `doistDo` that holds
+for every fuel — lifecycle well-formedness, forced exits nested and in reverse enter order, … — carries over -/
+theorem adoLoopCancel_eq (pool : List (Spec τ)) (tock : τ) (stopAt : Option τ) :
+    ∀ j n now deeds doers,
+      (adoLoopCancel pool tock stopAt j n now deeds doers).1.evs = (doLoop pool tock stopAt (j+1) n now deeds doers).evs
+      ∧ (adoLoopCancel pool tock stopAt j n now deeds doers).1.tyme = (doLoop pool tock stopAt (j+1) n now deeds doers).tyme
+      ∧ (adoLoopCancel pool tock stopAt j n now deeds doers).1.cycles = (doLoop pool tock stopAt (j+1) n now deeds doers).cycles
+      ∧ (adoLoopCancel pool tock stopAt j n now deeds doers).1.doers = (doLoop pool tock stopAt (j+1) n now deeds doers).doers
+      ∧ (adoLoopCancel pool tock stopAt j n now deeds doers).1.raised = (doLoop pool tock stopAt (j+1) n now deeds doers).raised
+      ∧ ((adoLoopCancel pool tock stopAt j n now deeds doers).2 = true →
+          (adoLoopCancel pool tock stopAt j n now deeds doers).1.done = false) := by
+  intro j
+  induction j with
+  | zero =>
+    intro n now deeds doers
+    unfold adoLoopCancel doLoop
+    rcases h : runCycle pool now tock 0 deeds { doers := doers } with ⟨es, un, c, x⟩
+    cases x with
+    | some x => simp
+    | none =>
+      simp only []
+      by_cases he : c.pr.isEmpty = true
+      · have : c.pr = [] := by simpa using he
+        simp [he, this]
+      · cases stopAt with
+        | none => simp [he, doLoop]
+        | some s =>
+          by_cases hs : s ≤ now + tock
+          · simp [he, hs]
+          · simp [he, hs, doLoop]
+  | succ j ih =>
+    intro n now deeds doers
+    unfold adoLoopCancel doLoop
+    rcases h : runCycle pool now tock 0 deeds { doers := doers } with ⟨es, un, c, x⟩
+    cases x with
+    | some x => simp
+    | none =>
+      simp only []
+      obtain ⟨i1, i2, i3, i4, i5, i6⟩ := ih (n+1) (now + tock) c.pr c.doers
+      by_cases he : c.pr.isEmpty = true
+      · simp [he]
+      · cases stopAt with
+        | none => simp [he, i1, i2, i3, i4, i5]; exact i6
+        | some s =>
+          by_cases hs : s ≤ now + tock
+          · simp [he, hs]
+          · simp [he, hs, i1, i2, i3, i4, i5]; exact i6
+
 end Hio.Sched
